@@ -62,3 +62,191 @@ pub mod clock {
         OFFSET.with(|o| o.set(Duration::ZERO));
     }
 }
+
+// ------------------------------------------------------------------------------------------------
+// Transport seam: a public mirror of the crate-private `Transport` trait / `TransportEvent`, so
+// the harness can install a scripted transport into a real `Litep2p`.
+// ------------------------------------------------------------------------------------------------
+
+use crate::{
+    error::DialError,
+    transport::{manager::TransportHandle as InnerTransportHandle, Endpoint},
+    types::ConnectionId,
+};
+use futures::{future::BoxFuture, Stream};
+use multiaddr::Multiaddr;
+use std::{
+    pin::Pin,
+    task::{Context, Poll},
+};
+
+/// Mirror of the crate-private `TransportEvent`.
+#[derive(Debug)]
+pub enum TransportEvent {
+    ConnectionEstablished {
+        peer: PeerId,
+        endpoint: Endpoint,
+    },
+    PendingInboundConnection {
+        connection_id: ConnectionId,
+    },
+    ConnectionOpened {
+        connection_id: ConnectionId,
+        address: Multiaddr,
+        errors: Vec<(Multiaddr, DialError)>,
+    },
+    ConnectionClosed {
+        peer: PeerId,
+        connection_id: ConnectionId,
+    },
+    DialFailure {
+        connection_id: ConnectionId,
+        address: Multiaddr,
+        error: DialError,
+    },
+    OpenFailure {
+        connection_id: ConnectionId,
+        errors: Vec<(Multiaddr, DialError)>,
+    },
+}
+
+impl From<crate::transport::TransportEvent> for TransportEvent {
+    fn from(event: crate::transport::TransportEvent) -> Self {
+        use crate::transport::TransportEvent as T;
+        match event {
+            T::ConnectionEstablished { peer, endpoint } => Self::ConnectionEstablished { peer, endpoint },
+            T::PendingInboundConnection { connection_id } => Self::PendingInboundConnection { connection_id },
+            T::ConnectionOpened { connection_id, address, errors } =>
+                Self::ConnectionOpened { connection_id, address, errors },
+            T::ConnectionClosed { peer, connection_id } => Self::ConnectionClosed { peer, connection_id },
+            T::DialFailure { connection_id, address, error } =>
+                Self::DialFailure { connection_id, address, error },
+            T::OpenFailure { connection_id, errors } => Self::OpenFailure { connection_id, errors },
+        }
+    }
+}
+
+impl From<TransportEvent> for crate::transport::TransportEvent {
+    fn from(event: TransportEvent) -> Self {
+        use TransportEvent as T;
+        match event {
+            T::ConnectionEstablished { peer, endpoint } => Self::ConnectionEstablished { peer, endpoint },
+            T::PendingInboundConnection { connection_id } => Self::PendingInboundConnection { connection_id },
+            T::ConnectionOpened { connection_id, address, errors } =>
+                Self::ConnectionOpened { connection_id, address, errors },
+            T::ConnectionClosed { peer, connection_id } => Self::ConnectionClosed { peer, connection_id },
+            T::DialFailure { connection_id, address, error } =>
+                Self::DialFailure { connection_id, address, error },
+            T::OpenFailure { connection_id, errors } => Self::OpenFailure { connection_id, errors },
+        }
+    }
+}
+
+/// Mirror of the crate-private `Transport` trait (same methods, same meaning).
+pub trait Transport: Send + Unpin {
+    fn dial(&mut self, connection_id: ConnectionId, address: Multiaddr) -> crate::Result<()>;
+    fn accept(&mut self, connection_id: ConnectionId) -> crate::Result<BoxFuture<'static, crate::Result<()>>>;
+    fn accept_pending(&mut self, connection_id: ConnectionId) -> crate::Result<()>;
+    fn reject_pending(&mut self, connection_id: ConnectionId) -> crate::Result<()>;
+    fn reject(&mut self, connection_id: ConnectionId) -> crate::Result<()>;
+    fn open(&mut self, connection_id: ConnectionId, addresses: Vec<Multiaddr>) -> crate::Result<()>;
+    fn negotiate(&mut self, connection_id: ConnectionId) -> crate::Result<()>;
+    fn cancel(&mut self, connection_id: ConnectionId);
+    fn poll_event(&mut self, cx: &mut Context<'_>) -> Poll<Option<TransportEvent>>;
+}
+
+/// What `ConfigBuilder::with_verif_transport` takes: builds the transport from the handle every
+/// real transport receives; returns it with its listen addresses.
+pub type TransportFactory =
+    Box<dyn FnOnce(TransportHandle) -> (Box<dyn Transport>, Vec<Multiaddr>) + Send>;
+
+struct Adapter(Box<dyn Transport>);
+
+impl Stream for Adapter {
+    type Item = crate::transport::TransportEvent;
+
+    fn poll_next(mut self: Pin<&mut Self>, cx: &mut Context<'_>) -> Poll<Option<Self::Item>> {
+        self.0.poll_event(cx).map(|event| event.map(Into::into))
+    }
+}
+
+impl crate::transport::Transport for Adapter {
+    fn dial(&mut self, connection_id: ConnectionId, address: Multiaddr) -> crate::Result<()> {
+        self.0.dial(connection_id, address)
+    }
+    fn accept(&mut self, connection_id: ConnectionId) -> crate::Result<BoxFuture<'static, crate::Result<()>>> {
+        self.0.accept(connection_id)
+    }
+    fn accept_pending(&mut self, connection_id: ConnectionId) -> crate::Result<()> {
+        self.0.accept_pending(connection_id)
+    }
+    fn reject_pending(&mut self, connection_id: ConnectionId) -> crate::Result<()> {
+        self.0.reject_pending(connection_id)
+    }
+    fn reject(&mut self, connection_id: ConnectionId) -> crate::Result<()> {
+        self.0.reject(connection_id)
+    }
+    fn open(&mut self, connection_id: ConnectionId, addresses: Vec<Multiaddr>) -> crate::Result<()> {
+        self.0.open(connection_id, addresses)
+    }
+    fn negotiate(&mut self, connection_id: ConnectionId) -> crate::Result<()> {
+        self.0.negotiate(connection_id)
+    }
+    fn cancel(&mut self, connection_id: ConnectionId) {
+        self.0.cancel(connection_id)
+    }
+}
+
+pub(crate) fn adapt(
+    transport: Box<dyn Transport>,
+) -> Box<dyn crate::transport::Transport<Item = crate::transport::TransportEvent>> {
+    Box::new(Adapter(transport))
+}
+
+/// The handle every real transport receives from the manager.
+pub struct TransportHandle(InnerTransportHandle);
+
+impl TransportHandle {
+    pub(crate) fn new(inner: InnerTransportHandle) -> Self {
+        Self(inner)
+    }
+
+    /// Allocate a connection id from the allocator shared with the manager.
+    pub fn next_connection_id(&mut self) -> ConnectionId {
+        self.0.next_connection_id()
+    }
+
+    /// Executor given to the node.
+    pub fn executor(&self) -> std::sync::Arc<dyn crate::executor::Executor> {
+        self.0.executor.clone()
+    }
+
+    /// Local peer id.
+    pub fn local_peer_id(&self) -> PeerId {
+        PeerId::from_public_key(&self.0.keypair.public().into())
+    }
+}
+
+/// Dump of one peer of the connection manager.
+#[derive(Debug, Clone, PartialEq, Eq)]
+pub struct PeerSnapshot {
+    pub peer: PeerId,
+    /// `connected`, `connected+secondary`, `connected+dialing`, `opening`, `dialing`,
+    /// `disconnected`, `disconnected+dialing`
+    pub state: &'static str,
+    /// connection records of the state, in the order of the state's fields
+    pub records: Vec<(ConnectionId, Multiaddr)>,
+    pub opening_addresses: Vec<Multiaddr>,
+    pub address_book: Vec<(Multiaddr, i32)>,
+}
+
+/// Dump of the connection manager.
+#[derive(Debug, Clone, PartialEq, Eq)]
+pub struct ManagerSnapshot {
+    pub peers: Vec<PeerSnapshot>,
+    pub pending_connections: Vec<(ConnectionId, PeerId)>,
+    pub opening_errors: Vec<ConnectionId>,
+    pub counted_incoming: Vec<ConnectionId>,
+    pub counted_outgoing: Vec<ConnectionId>,
+    pub pending_accepts: usize,
+}
